@@ -439,6 +439,12 @@ def run_plan(plan: dict) -> RunResult:
                 if rec.upstream is not None:
                     violate("C17/replay/origin-contacted", **tagd)
                     break
+            if expected_replay[rec.id] is False and rec.upstream is None:
+                # nothing entitles the proxy to answer this poll itself (no previous events-carrying response for this
+                # ack - e.g. the previous response was the no-events form, after which the ack cannot advance)
+                violate("C17/replay/answered-without-a-previous-response", ack=repr(rec.spec.get("ack_sent")),
+                        status=rec.result["status"], body=rec.result["content"][:120].decode("latin1"), **tagd)
+                break
             if rec.id not in expected_body:
                 # non-200 passed through untouched
                 if expected_replay[rec.id] is False and rec.upstream is not None and st["status"] != 200:
